@@ -19,7 +19,8 @@ WORK = ROOT / ".work"
 EVID = ROOT / "evidence"
 REPLAYS = ROOT / "replays"
 PY = "/venv/bin/python"
-ENV = dict(os.environ, PYTHONPATH="/repo", PYTHONHASHSEED="0", FLOX_VERIF="1", PYTHONWARNINGS="ignore")
+ENV = dict(os.environ, PYTHONPATH="/repo", PYTHONHASHSEED="0", FLOX_VERIF="1", PYTHONWARNINGS="ignore",
+           OMP_NUM_THREADS="1", OPENBLAS_NUM_THREADS="1", MKL_NUM_THREADS="1", NUMBA_NUM_THREADS="2")
 QFLAGS = ["-Q", "Base", "Flox", "-Q", "Model", "Flox", "-Q", "Gen", "Flox", "-Q", "Proofs", "Flox", "-Q", "Props", "Flox"]
 NCPU = os.cpu_count() or 8
 
